@@ -107,6 +107,7 @@ type point struct {
 	ErrPages  []uint32 `json:"err_pages,omitempty"`  // ReadAt failed although the entry's file exists (or there is no entry)
 	GonePages []uint32 `json:"gone_pages,omitempty"` // the index entry names a file that is not on the replica any more; a cold read fails with BUSY
 	Missing   []uint32 `json:"missing_pages,omitempty"` // pages of the restored database without an index entry (a cached page can hide this from ReadAt)
+	PlanDef   string   `json:"plan_def,omitempty"`      // name of the definition holding the restore plan behind the view (schedule kinds)
 	PrevOK    bool     `json:"prev_ok"`              // previous point of this instance was clean
 	BytesOK   bool     `json:"bytes_ok"`
 	Note      string   `json:"note,omitempty"`
@@ -148,6 +149,13 @@ type hist struct {
 	prevOK   bool
 	rowSeq   int
 	ctx      context.Context
+	// lock / time-travel schedule state (tokens LK PL ST RT UL)
+	locked     bool
+	target     time.Time // zero: latest
+	planDef    string    // definition holding the plan of the last SetTargetTime / ResetTime
+	rebuilt    bool      // a ResetTime happened and no poll has been applied since
+	lockedPoll int       // line of the vfs_poll case of a poll staged under the current lock
+	planSeq    int
 }
 
 func (h *hist) scriptText() string {
@@ -379,7 +387,7 @@ func (h *hist) check(kind string, modelLine int, ts time.Time) (ok bool) {
 	st := h.vf.IndexSnapshot()
 	szBytes, szPages := h.sizePages()
 	p := point{ID: e.nextID, History: h.id, Instance: h.instance, Kind: kind, Script: h.scriptText(),
-		Pos: uint64(st.Pos), ModelLine: modelLine, SizeVFS: szBytes, PrevOK: h.prevOK}
+		Pos: uint64(st.Pos), ModelLine: modelLine, SizeVFS: szBytes, PrevOK: h.prevOK, PlanDef: h.planDef}
 	e.nextID++
 	ref, src, err := h.restoreRef(uint64(st.Pos), ts)
 	if err != nil {
@@ -514,6 +522,7 @@ func (h *hist) openVFS() error {
 	h.vf = vf
 	h.instance++
 	h.prevOK = true
+	h.locked, h.target, h.planDef, h.rebuilt, h.lockedPoll = false, time.Time{}, "", false, 0
 	line, err := h.emitOpenCase(plan, "open")
 	if err != nil {
 		return err
@@ -636,6 +645,151 @@ func (h *hist) lockCase(kind int, lt sqlite3vfs.LockType) {
 }
 
 // afterFailure: a failed check leaves a wrong index behind; continue the history on a fresh file.
+// stepCase runs one step of the lock / poll / time-travel machine on the real file and emits it as
+// a vfs_step case: [state; target set?; op] -> [ok; state'; target set?; FileSize / pageSize].
+func (h *hist) stepCase(opSx Sx, class string, do func() error) (int, error) {
+	pre := h.vf.IndexSnapshot()
+	preT := h.vf.TargetTime() != nil
+	err := do()
+	post := h.vf.IndexSnapshot()
+	postT := h.vf.TargetTime() != nil
+	_, szPages := h.sizePages()
+	line := h.e.line()
+	h.e.cw.Add("vfs_step", L(stateSx(pre), B(preT), opSx), L(B(err == nil), stateSx(post), B(postT), I(szPages)),
+		fmt.Sprintf("step/%s lock=%d target=%v pending=%s replace=%v", class, pre.LockType, preT, bucket(len(pre.Pending)), pre.PendingReplace),
+		len(pre.Pending) > 0 || pre.PendingReplace || preT)
+	return line, err
+}
+
+func (h *hist) definePlan(plan []*ltx.FileInfo) (Sx, error) {
+	fs, err := h.planAbs(plan)
+	if err != nil {
+		return nil, err
+	}
+	h.planSeq++
+	h.planDef = fmt.Sprintf("plan%d_%d", h.id, h.planSeq)
+	h.e.define(h.planDef, filesSx(fs))
+	// the runner shards the case file at definition lines: make the next oracle case re-define the
+	// ledger so that every shard is self-contained
+	h.ledgerSx = ""
+	return Ref(h.planDef), nil
+}
+
+func (h *hist) stepLock() error {
+	if h.locked {
+		return nil
+	}
+	_, err := h.stepCase(L(I(0), I(int64(sqlite3vfs.LockShared))), "lock", func() error { return h.vf.Lock(sqlite3vfs.LockShared) })
+	h.locked, h.lockedPoll = err == nil, 0
+	return err
+}
+
+// stepPoll: a poll inside a schedule. With a target set the poll must change nothing; under the lock
+// it is staged in the pending index (no check: the reader keeps its snapshot).
+func (h *hist) stepPoll() error {
+	if h.target.IsZero() {
+		line, _, err := h.pollCase()
+		if err != nil {
+			return err
+		}
+		h.rebuilt = false
+		if h.locked {
+			h.lockedPoll = line
+			return nil
+		}
+		return h.afterCheck(h.check("poll", line, time.Time{}))
+	}
+	l0, err := h.listLevel(0)
+	if err != nil {
+		return err
+	}
+	l1, err := h.listLevel(1)
+	if err != nil {
+		return err
+	}
+	line, _ := h.stepCase(L(I(2), filesSx(l0), filesSx(l1)), "poll", func() error { return h.vf.PollOnce(h.ctx) })
+	return h.afterCheck(h.check("tt-poll", line, h.target))
+}
+
+func (h *hist) stepSetTarget(k int) error {
+	if len(h.ledger) == 0 {
+		return nil
+	}
+	k %= len(h.ledger)
+	ts := h.ledger[len(h.ledger)-1-k].ts.Add(time.Millisecond)
+	plan, err := litestream.CalcRestorePlan(h.ctx, h.client, 0, ts, QuietLogger())
+	if err != nil {
+		return nil
+	}
+	ref, err := h.definePlan(plan)
+	if err != nil {
+		return err
+	}
+	line, err := h.stepCase(L(I(3), ref), "set-target", func() error { return h.vf.SetTargetTime(h.ctx, ts) })
+	if err != nil {
+		return fmt.Errorf("SetTargetTime: %w", err)
+	}
+	h.target, h.rebuilt, h.lockedPoll = ts, false, 0
+	h.prevOK = true
+	return h.afterCheck(h.check("tt-set", line, ts))
+}
+
+func (h *hist) stepReset() error {
+	plan, err := litestream.CalcRestorePlan(h.ctx, h.client, 0, time.Time{}, QuietLogger())
+	if err != nil {
+		return err
+	}
+	ref, err := h.definePlan(plan)
+	if err != nil {
+		return err
+	}
+	line, err := h.stepCase(L(I(4), ref), "reset", func() error { return h.vf.ResetTime(h.ctx) })
+	if err != nil {
+		return fmt.Errorf("ResetTime: %w", err)
+	}
+	h.target, h.rebuilt, h.lockedPoll = time.Time{}, true, 0
+	h.prevOK = true
+	return h.afterCheck(h.check("rt-reset", line, time.Time{}))
+}
+
+func (h *hist) stepUnlock() error {
+	if !h.locked {
+		return nil
+	}
+	line, err := h.stepCase(L(I(1), I(int64(sqlite3vfs.LockNone))), "unlock", func() error { return h.vf.Unlock(sqlite3vfs.LockNone) })
+	if err != nil {
+		return err
+	}
+	h.locked = false
+	switch {
+	case !h.target.IsZero():
+		return h.afterCheck(h.check("tt-unlock", line, h.target))
+	case h.rebuilt:
+		return h.afterCheck(h.check("rt-unlock", line, time.Time{}))
+	case h.lockedPoll > 0:
+		pl := h.lockedPoll
+		h.lockedPoll = 0
+		return h.afterCheck(h.check("lpoll", pl, time.Time{}))
+	}
+	return nil
+}
+
+// normalize leaves a schedule (unlock, back to latest) before the self-contained tokens.
+func (h *hist) normalize() error {
+	if h.vf == nil {
+		return nil
+	}
+	if h.locked {
+		if err := h.stepUnlock(); err != nil {
+			return err
+		}
+	}
+	if h.vf != nil && !h.target.IsZero() {
+		return h.stepReset()
+	}
+	return nil
+}
+
 func (h *hist) afterCheck(ok bool) error {
 	if ok {
 		return nil
@@ -659,6 +813,28 @@ func (h *hist) run(op string) (err error) {
 		return 0
 	}
 	switch f[0] {
+	case "POLL", "LPOLL", "TT":
+		if err := h.normalize(); err != nil {
+			return err
+		}
+	}
+	switch f[0] {
+	case "LK", "PL", "ST", "RT", "UL":
+		if h.vf == nil {
+			return h.openVFS()
+		}
+		switch f[0] {
+		case "LK":
+			return h.stepLock()
+		case "PL":
+			return h.stepPoll()
+		case "ST":
+			return h.stepSetTarget(arg(1))
+		case "RT":
+			return h.stepReset()
+		default:
+			return h.stepUnlock()
+		}
 	case "I": // I n size
 		tx, err := h.sqldb.Begin()
 		if err != nil {
@@ -802,6 +978,12 @@ var directed = []struct {
 	{"lag-behind-retention", 1024, "I 20 300;S;OPEN;I 5 300;S;I 5 300;S;I 5 300;S;C1;R0;I 5 300;S;POLL;POLL"},
 	{"l1-catches-up-then-l0-retention", 1024, "I 20 900;S;C1;OPEN;U 0 2;S;U 1 2;S;POLL;C1;R0;POLL;U 0 3;S;POLL"},
 	{"l1-catches-up-maxtxid1-seeded-from-pos", 1024, "I 20 900;S;OPEN;U 0 2;S;U 1 2;S;POLL;C1;R0;POLL;U 0 3;S;POLL"},
+	{"tt-under-lock-growth", 1024, "I 20 900;S;I 20 900;S;OPEN;I 30 900;S;LK;PL;ST 1;UL;PL;RT;POLL"},
+	{"tt-under-lock-growth-older", 1024, "I 20 900;S;I 20 900;S;OPEN;I 30 900;S;LK;PL;ST 2;PL;UL;RT;UL"},
+	{"tt-under-lock-partial-shrink", 1024, "I 60 900;S;OPEN;D 0 2;S;V 3;S;LK;PL;ST 2;UL;RT"},
+	{"tt-under-lock-vacuum", 1024, "I 60 900;S;OPEN;D 1 2;VAC;S;I 5 900;S;LK;PL;ST 2;PL;UL;PL;RT"},
+	{"reset-under-lock-after-further-sync", 1024, "I 20 900;S;OPEN;U 0 2;S;LK;PL;U 1 2;S;RT;UL;POLL"},
+	{"reset-under-lock-shrink-then-growth", 1024, "I 60 900;S;OPEN;D 0 2;S;V 3;S;LK;PL;I 30 900;S;RT;UL;I 3 50;S;POLL"},
 	{"locked-polls", 1024, "I 30 300;S;OPEN;I 30 300;S;LPOLL;D 0 2;S;VAC;S;LPOLL;I 3 30;S;LPOLL"},
 	{"time-travel", 1024, "I 20 300;S;I 20 300;S;OPEN;D 0 2;S;V 2;S;I 4 40;S;POLL;TT 0;TT 1;TT 2;TT 3"},
 }
@@ -852,10 +1034,36 @@ func randomScript(r *rand.Rand) (int, []string) {
 			w("OPEN")
 		case x < 94:
 			w("POLL")
-		case x < 98:
+		case x < 96:
 			w("LPOLL")
-		default:
+		case x < 97:
 			w("TT %d", r.Intn(6))
+		default: // lock / staged poll / time travel or reset / unlock
+			w("LK")
+			w("PL")
+			if r.Intn(2) == 0 {
+				if r.Intn(2) == 0 {
+					w("I %d %d", 1+r.Intn(25), sizes[r.Intn(4)])
+				} else {
+					w("D %d 2", r.Intn(2))
+					w("V %d", 1+r.Intn(4))
+				}
+				w("S")
+			}
+			if r.Intn(3) > 0 {
+				w("ST %d", r.Intn(5))
+				if r.Intn(2) == 0 {
+					w("PL")
+				}
+				w("UL")
+				if r.Intn(2) == 0 {
+					w("PL")
+				}
+				w("RT")
+			} else {
+				w("RT")
+				w("UL")
+			}
 		}
 		// writes are usually followed by a sync so that polls see something
 		if last := ops[len(ops)-1][0]; (last == 'I' || last == 'U' || last == 'D' || last == 'V') && r.Intn(3) > 0 {
